@@ -8,6 +8,7 @@
    globals GLOBAL_RARE_VALUE_STORAGE / IGNORED_VALUES.
    No proofs here: the model must still run when a proof breaks (Stats/QualityProofs.v). *)
 From Coq Require Import List ListDec Arith NArith ZArith QArith Bool.
+From Outrank Require Sketch.HLL.       (* C14's model of HyperLogLogWCache, both phases; used qualified *)
 Import ListNotations.
 Local Open Scope Z_scope.
 
@@ -20,9 +21,13 @@ Definition str_eq_dec : forall a b : str, {a = b} + {a <> b} := list_eq_dec N.eq
    float nan when the column of that batch also holds strings (StringDtype), the None object itself when
    every cell of that column of the batch is None (object dtype).  nan and None are two different
    dictionary keys, both different from every string; nan is truthy and str(nan) = 'nan', None is falsy. *)
-Inductive val := V (s : str) | NaN | PyNone.
+(* [Num s nz]: a numeric cell of the ENRICHED frame (the statistics run after feature construction: noise baseline
+   columns hold ints / floats).  A number is represented by its str() [s] (what the sketch hashes) and whether it is
+   non-zero (`if unique_value:` drops 0 and 0.0); two numeric keys are equal iff their strings are (columns are
+   homogeneous: all ints or all floats, no -0.0 / nan); a number is never equal to a string or a missing symbol. *)
+Inductive val := V (s : str) | NaN | PyNone | Num (s : str) (nz : bool).
 Definition val_eq_dec : forall a b : val, {a = b} + {a <> b}.
-Proof. decide equality. apply str_eq_dec. Defined.
+Proof. decide equality. apply str_eq_dec. apply Bool.bool_dec. apply str_eq_dec. Defined.
 
 Definition row := list val.
 Definition batch := list row.             (* the rows of one mini-batch as the DataFrame holds them *)
@@ -37,31 +42,31 @@ Definition column (j : nat) (b : list row) : list val := map (fun r => nth j r P
 (* the parsers' rows: None = absent.  [frame_raw]: the frame pandas builds from one batch of them, which is what the
    statistics functions see when called directly on pd.DataFrame(rows) (and what the pipeline fed them before fix
    2ffc0d7).  [frame_batch] (below): the frame compute_batch_ranking hands them, pd.DataFrame(rows).fillna(''). *)
-Definition cell := option str.
+Definition cell := option val.            (* Some (V s) for a parsed field, Some (Num ..) for a constructed numeric cell *)
 Definition rrow := list cell.
 Definition is_none (c : cell) : bool := match c with None => true | Some _ => false end.
 Definition allnone (j : nat) (b : list rrow) : bool := forallb (fun r => is_none (nth j r None)) b.
 Definition frame_cell (b : list rrow) (jc : nat * cell) : val :=
   match snd jc with
-  | Some s => V s
+  | Some v => v
   | None => if allnone (fst jc) b then PyNone else NaN
   end.
 Definition frame_raw (b : list rrow) : batch :=
   map (fun r => map (frame_cell b) (combine (seq 0 (length r)) r)) b.
 (* compute_batch_ranking: input_dataframe.fillna('') — an absent field is carried as the empty string *)
-Definition fill_cell (c : cell) : val := match c with Some s => V s | None => V [] end.
+Definition fill_cell (c : cell) : val := match c with Some v => v | None => V [] end.
 Definition fill (rows : list rrow) : list row := map (map fill_cell) rows.
 Definition frame_batch (b : list rrow) : batch := fill b.
 (* rows without None cells: every cell is its string *)
-Definition lift_cell (c : cell) : val := match c with Some s => V s | None => NaN end.
+Definition lift_cell (c : cell) : val := match c with Some v => v | None => NaN end.
 Definition lift (rows : list rrow) : list row := map (map lift_cell) rows.
 Definition none_free (rows : list rrow) : bool := forallb (forallb (fun c => negb (is_none c))) rows.
 
 (* `if unique_value:` and str(unique_value) *)
 Definition truthy (v : val) : bool :=
-  match v with V [] => false | V _ => true | NaN => true | PyNone => false end.
+  match v with V [] => false | V _ => true | NaN => true | PyNone => false | Num _ nz => nz end.
 Definition str_of (v : val) : str :=
-  match v with V s => s | NaN => [110; 97; 110]%N | PyNone => [78; 111; 110; 101]%N end.
+  match v with V s => s | NaN => [110; 97; 110]%N | PyNone => [78; 111; 110; 101]%N | Num s _ => s end.
 
 (* ---- association lists with Z counts (collections.Counter, insertion order kept) ------ *)
 Section Assoc.
@@ -142,6 +147,14 @@ Section Card.
     length (dedup val_eq_dec (filter truthy col)).
 End Card.
 
+(* the real sketch, both phases (Sketch/HLL.v): the values it receives are the digests of this model; [h2] is its own
+   hash of a digest (xxh32(seed = p)).  What __len__ returns after a history: [Exact n] or [Est z] (z empty registers) *)
+Definition card_hll (p : N) (W : nat) (width : N) (h2 : N -> N) (hash : val -> N) (j : nat) (bs : list batch) : HLL.lent :=
+  HLL.len (HLL.run p W width h2 (concat (map (fun b => batch_ins hash (column j b)) bs))).
+(* the specification: the sketch fed once with the truthy cells of the whole column *)
+Definition card_hll_spec (p : N) (W : nat) (width : N) (h2 : N -> N) (hash : val -> N) (col : list val) : HLL.lent :=
+  HLL.len (HLL.run p W width h2 (map hash (filter truthy col))).
+
 (* ---- (ii) the bounded exact counter ---------------------------------------------------- *)
 (* PrimitiveConstrainedCounter.add: counted only while fewer than [bound] keys are stored —
    once the key count reaches the bound EVERY add is dropped, also for stored keys. *)
@@ -164,6 +177,19 @@ Definition hist (edges : list Z) (bound : Z) (j : nat) (bs : list batch) : list 
 Definition hist_spec (edges : list Z) (col : list val) : list Z :=
   let vals := map (fun v => cnt val_eq_dec col v) (dedup val_eq_dec col) in
   map (fun x => Z.of_nat (length (filter (fun c => x <? c) vals))) edges.
+
+(* the cells the counter really counts: everything up to and including the arrival of the bound-th distinct value
+   ([seen]: the distinct values stored so far); afterwards every add is dropped *)
+Fixpoint eff_prefix (bound : Z) (seen : list val) (col : list val) : list val :=
+  match col with
+  | [] => []
+  | x :: r => if Z.of_nat (length seen) <? bound
+              then x :: eff_prefix bound (if memb val_eq_dec x seen then seen else x :: seen) r
+              else []
+  end.
+(* the histogram of ANY column: the exact histogram of that prefix *)
+Definition hist_general (edges : list Z) (bound : Z) (col : list val) : list Z :=
+  hist_spec edges (eff_prefix bound [] col).
 
 Definition default_edges : list Z := [0; 1; 10; 100; 1000; 10000; 100000].
 
@@ -292,8 +318,9 @@ Record C13_case := mkCase {
 (* rationals are printed as (numerator, denominator) *)
 Definition qpair (q : Q) : Z * Z := (Qnum q, Zpos (Qden q)).
 Definition col_obs := (option nat * list Z * list (Z * Z) * (Z * Z) * Z)%type.
-(* values are printed as (tag, string): 0 = str, 1 = nan, 2 = None *)
-Definition val_enc (v : val) : Z * str := match v with V s => (0, s) | NaN => (1, []) | PyNone => (2, []) end.
+(* values are printed as (tag, string): 0 = str, 1 = nan, 2 = None, 3 / 4 = non-zero / zero number *)
+Definition val_enc (v : val) : Z * str :=
+  match v with V s => (0, s) | NaN => (1, []) | PyNone => (2, []) | Num s true => (3, s) | Num s false => (4, s) end.
 Definition C13_obs := (list col_obs * list (nat * (Z * str) * Z))%type.
 
 Definition C13_model (c : C13_case) (sizes : list nat) : C13_obs :=
